@@ -674,6 +674,19 @@ def region15 (inp : Input) : String :=
   else "WF"
 
 
+/-! ## Termination of the generator itself -/
+
+/-- F_selfEmbed: the generator does not terminate on a cyclic embedding (see `genDiverges`) -/
+def F_selfEmbed (inp : Input) : Bool := genDiverges inp
+
+/-- what a run of the tool shows: nothing but the failed run when the generator diverges -/
+def obsGen (inp : Input) (o : List (String × String)) : List (String × String) :=
+  if genDiverges inp then [("exit", "crash")] else o
+
+/-- the region of a case: `f` (the finding, or "Out" where the property does not own it) when the generator diverges -/
+def regionGen (inp : Input) (r f : String) : String :=
+  if r != "Out" && F_selfEmbed inp then f else r
+
 /-! ## C01 leg: does the output compile -/
 
 def allOk : List (String × String) :=
